@@ -44,4 +44,26 @@ CLAIMS = {
   'note': 'Duplicate control numbers supplied by the caller are copied (reader errors 025/6/23 not attributed to the writer); LX renumbering option off; trusted: TLC, output splitter/projection in lib/c11.py.',
   'technique': 'TLA+ refinement check (TLC) writer model vs definition + replay of TLC histories into X12Writer + TLC trace validation',
  },
+ 'C01': {
+  'text': 'TLC model-checks Tokenizer.tla: an environment writes every text <=5/6 over {terminator, element and component separator, CR, LF, blank, data} and then serves read() in '
+          'every possible chunking (short reads up to buffer sizes 2 and 3, full reads with buffer 1 and 3); theorem: the buffer/refill/split loop of RawX12File plus the per-line '
+          'normalisation of X12Reader yields exactly TokDef!Oracle(text) and every segment survives format + re-read in normal form. Every (text, schedule) is instantiated under 4 '
+          'delimiter triples (incl. the binary one) and fed to the real X12Reader through a stream chunking exactly like the schedule (DEFAULT_BUFSIZE patched to the model buffer) and by path; '
+          'real-size inputs (8 KiB buffer untouched): terminators swept over every alignment to the buffer boundary under none/LF/CRLF/CR, short-read streams, path sources, a 9 KB segment, '
+          'blank/empty-piece normalisations. All executions are trace-validated by TLC against the TokDef definition (T_Tokenizer): segments element by component by character, blank-error '
+          'count, trailing-separator flag, formatted text, re-read.',
+  'note': 'Exhaustive part uses one data symbol; real-size runs use ASCII letters/digits; element-less segments: no claim on formatted text (suite documents AAA*~); a leading run of blanks and '
+          'line breaks is dropped as a whole once it contains a blank. Trusted: TLC, the scheduled stream and projections in lib/c01.py.',
+  'technique': 'TLA+ model checking (TLC) of the buffer state machine vs split oracle over all chunkings + replay into X12Reader with scheduled streams + TLC trace validation',
+ },
+ 'C13': {
+  'text': 'TLC enumerates DataTypesGen (all strings <=5/6 over {0,1,2,5,9,-,.,x,LF}, strings <=2/3 over 14 character-set boundary symbols, year-class x month 00..13 x day 00..32 dates with HHMM / '
+          'hyphen+date extensions, hour x minute x second 00..60 x decimal shapes, up to 4 parts joined by 0..3 hyphens) and emits each value with the verdict vector of the definition layer '
+          'DataTypes.tla (calendar/clock arithmetic, numeric shapes, explicit character sets); every value is replayed into the real IsValidDataType under 23 type identifiers x 4 (charset, icvn) '
+          'settings, an exception being a divergence. Complete tables recorded from the real function (accepted days for every CCYYMM of the tier years - thorough: 0000..9999 -, every YYMMDD, '
+          'every HHMM/HHMMS, HHMMSS and HHMMSSd(d) grids, every single character 0..255, boundary pairs, seeded mutations) are validated by TLC against the same definition (T_DataTypes).',
+  'note': 'Free-form strings only up to length 5/6 over a 9-symbol alphabet, longer values through shaped generators, tables and seeded mutations; no verdict claimed for the empty ID/AN value, type B '
+          'and unknown type ids (only never-raise); DT read as D6 | D8 | D8+HHMM; DataTypesImpl.tla (thorough) is a model-only cross-check. Trusted: TLC, JSON transport (length-checked), lib/c13.py.',
+  'technique': 'TLA+ model checking (TLC) + replay of TLC-generated inputs into the code + TLC trace validation of complete recorded tables',
+ },
 }
